@@ -225,6 +225,13 @@ def build(node, counter, registry=None, path=()):
                     lk.Pin(a2).put(st.pin[a])
                     lk.Pin(b2).put(st.pin[b])
                     pairs.append((a2, b2))
+        # in some solvers one placed leaf is declared a MONITOR (it is solved in the monitored group): it receives its
+        # parameters like every other component
+        placed = list(S.structures)
+        if len(placed) >= 2 and (counter[0] + len(placed)) % 3 == 0:
+            leaf = [st for st, (obj, sp) in zip(placed, kids) if sp is None]
+            if leaf:
+                S.monitor_structure(leaf[0], name=f"MON{counter[0]}")
         for k, v in node["sdef"]:
             S.set_param(pn(k), v)
         # Solver.set_param is a METHOD: it must act on its own solver also when that solver is no longer (or not) the
